@@ -1,6 +1,6 @@
 (* C37 — prange: sequential results and a safe exit on every schedule. Statements only. *)
 From Coq Require Import ZArith List Bool Permutation.
-From CyVerif Require Import Lib.CInt Model.M_Prange Proof.P_Prange.
+From CyVerif Require Import Lib.CInt Model.M_Prange Proof.P_Prange Model.M_PrangeShare Proof.P_PrangeShare.
 Import ListNotations.
 Open Scope Z_scope.
 
@@ -97,7 +97,90 @@ Theorem C37_why_is_allowed_outcome : forall evs,
 Proof. exact why_is_allowed_outcome. Qed.
 Print Assumptions C37_why_is_allowed_outcome.
 
+(* ---- sharing classification (Model/M_PrangeShare.v) ------------------------------------------------
+
+   the OpenMP combiner of every operator of generate_loop's operator string "+*-&^|" is a commutative
+   monoid on the values of a w-bit C integer type (signed or unsigned, wrap-around), its initialiser is
+   the identity, and  x o= v  commutes with combining: for  -  the partial differences are ADDED *)
+Theorem C37_combiner_laws : forall w sg o, 2 <= w -> In o omp_ops ->
+  (forall a b c, mop w sg o a (mop w sg o b c) = mop w sg o (mop w sg o a b) c) /\
+  (forall a b, mop w sg o a b = mop w sg o b a) /\
+  (forall a, in_range w sg a -> mop w sg o a (ident w sg o) = a) /\
+  (forall a b v, act w sg o (mop w sg o a b) v = mop w sg o a (act w sg o b v)).
+Proof.
+  intros w sg o Hw Hin.
+  assert (Ho : omp_reduction_op o = true) by (unfold omp_reduction_op; apply existsb_exists; exists o; split; [exact Hin|destruct o; reflexivity]).
+  repeat split; intros; [apply mop_assoc|apply mop_comm|apply mop_ident|apply act_mop]; assumption.
+Qed.
+Print Assumptions C37_combiner_laws.
+
+(* for every loop body that passes the well-formedness check under a classification cls (every
+   assigned name is used in one role: reduction with one operator of the string / lastprivate by
+   plain assignment or as a loop index; expressions read shared names and lastprivates assigned
+   earlier in the same iteration; conditionals and nested range / prange loops allowed), for EVERY
+   distribution of the iterations among any number of threads, every execution order inside a
+   thread and every order of combining: a reduction variable, a lastprivate assigned on every
+   path (Df) and every clause-less variable end with the value the sequential loop leaves.
+   Integer types only: floating + and * are not associative, the harness uses exactly representable
+   values for them. *)
+Theorem C37_sharing_any_schedule : forall w sg, 2 <= w ->
+  forall (cls : var -> clause) tgt body Df,
+  cls tgt = CFirstLast -> wf cls [tgt] body = Some Df ->
+  forall e0, (forall x, in_range w sg (e0 x)) ->
+  (forall x o, cls x = CRed o -> omp_reduction_op o = true) ->
+  forall idxs chunks x,
+  Permutation (concat chunks) idxs ->
+  (cls x = CFirstLast -> In x Df) ->
+  par_exec w sg cls tgt body chunks (last idxs 0) e0 x = seq_run w sg tgt body idxs e0 x.
+Proof. exact share_par_eq_seq. Qed.
+Print Assumptions C37_sharing_any_schedule.
+
+(* the same for a region as the compiler model classifies it (prange, or prange closely nested in a
+   parallel block whose privates are not copied out), with or without the proposed repairs *)
+Theorem C37_region_any_schedule : forall w sg, 2 <= w ->
+  forall fx r Df e0 idxs chunks x,
+  region_wf fx r = Some Df -> (forall y, in_range w sg (e0 y)) ->
+  Permutation (concat chunks) idxs ->
+  classify r x <> CBlockPriv -> (classify r x = CFirstLast -> In x Df) ->
+  region_par w sg r chunks (last idxs 0) e0 x = region_seq w sg r idxs e0 x.
+Proof. exact region_par_eq_seq. Qed.
+Print Assumptions C37_region_any_schedule.
+
+(* FULL statement "every accepted body is classified soundly" is false for the code as it is: *)
+Theorem C37_nonomp_inplace_operator_refuted : sharing_unsound r_shl.
+Proof. exact shl_unsound. Qed.
+Print Assumptions C37_nonomp_inplace_operator_refuted.
+
+Theorem C37_assigned_and_inplace_refuted : sharing_unsound r_mixed.
+Proof. exact mixed_unsound. Qed.
+Print Assumptions C37_assigned_and_inplace_refuted.
+
+Theorem C37_nested_operator_replaced_refuted : sharing_unsound r_nested_op.
+Proof. exact nested_op_unsound. Qed.
+Print Assumptions C37_nested_operator_replaced_refuted.
+
+Theorem C37_reduction_read_in_inplace_rhs_refuted : sharing_unsound r_read_rhs.
+Proof. exact read_rhs_unsound. Qed.
+Print Assumptions C37_reduction_read_in_inplace_rhs_refuted.
+
+(* the proposed repairs turn three of them into compile errors; the fourth stays accepted *)
+Theorem C37_repairs_reject :
+  region_errors all_fixes r_shl = [EUnsupportedOp] /\
+  region_errors all_fixes r_nested_op = [EInconsistent] /\
+  region_errors all_fixes r_read_rhs = [EReadReduction] /\
+  region_errors all_fixes r_mixed = [].
+Proof. exact repairs_reject. Qed.
+Print Assumptions C37_repairs_reject.
+
 Example C37_nonvacuous :
   prange_values 10 0 (-3) = Some [10; 7; 4; 1] /\ py_range 10 0 (-3) = [10; 7; 4; 1] /\
-  finish (run [Exit 2 2; Err 1 101; Err 0 100; Exit 3 3]) = (4, Some 101, [100]).
+  finish (run [Exit 2 2; Err 1 101; Err 0 100; Exit 3 3]) = (4, Some 101, [100]) /\
+  (* a body with all six operators, a temporary, a conditional, a nested prange: well-formed *)
+  region_wf no_fixes
+    {| r_pre := None; r_tgt := 0%nat;
+       r_body := SSeq (SAssign 1%nat (EB BMul (EV 0%nat) (EC 3)))
+                (SSeq (SInplace 2%nat OAdd (EV 1%nat))
+                (SSeq (SIf (EB BAnd (EV 0%nat) (EC 1)) (SInplace 3%nat OSub (EV 0%nat)) (SInplace 4%nat OXor (EV 1%nat)))
+                (SSeq (SLoop true 5%nat (EC 2) (SSeq (SInplace 6%nat OMul (EC 3)) (SInplace 7%nat OAnd (EV 5%nat))))
+                      (SInplace 8%nat OOr (EV 0%nat))))) |} = Some [1%nat; 0%nat].
 Proof. vm_compute. intuition congruence. Qed.
